@@ -107,8 +107,10 @@ class TStr(Ty):
 
         def build():
             d = z3.Datatype("StrA")
-            d.declare("mk_StrA", ("arr", z3.ArraySort(z3.IntSort(), z3.IntSort())), ("len", z3.IntSort()))
-            return d.create()
+            d.declare("mk_StrA", ("arr_StrA", z3.ArraySort(z3.IntSort(), z3.IntSort())), ("len_StrA", z3.IntSort()))
+            r = d.create()
+            r.arr, r.len = r.arr_StrA, r.len_StrA     # short aliases (SMT-LIB names stay unique per datatype)
+            return r
         return _dt("StrA", build)
 
 
@@ -138,10 +140,12 @@ class TList(Ty):
 
     def sort(self):
         def build():
-            d = z3.Datatype(_mangle(self.key))
-            d.declare("mk_" + _mangle(self.key),
-                      ("arr", z3.ArraySort(z3.IntSort(), self.elem.sort())), ("len", z3.IntSort()))
-            return d.create()
+            m = _mangle(self.key)
+            d = z3.Datatype(m)
+            d.declare("mk_" + m, ("arr_" + m, z3.ArraySort(z3.IntSort(), self.elem.sort())), ("len_" + m, z3.IntSort()))
+            r = d.create()
+            r.arr, r.len = getattr(r, "arr_" + m), getattr(r, "len_" + m)
+            return r
         return _dt(self.key, build)
 
 
@@ -152,8 +156,9 @@ class TTuple(Ty):
 
     def sort(self):
         def build():
-            d = z3.Datatype(_mangle(self.key))
-            d.declare("mk_" + _mangle(self.key), *[(f"f{i}", e.sort()) for i, e in enumerate(self.elems)])
+            m = _mangle(self.key)
+            d = z3.Datatype(m)
+            d.declare("mk_" + m, *[(f"f{i}_{m}", e.sort()) for i, e in enumerate(self.elems)])
             return d.create()
         return _dt(self.key, build)
 
@@ -165,10 +170,14 @@ class TOpt(Ty):
 
     def sort(self):
         def build():
-            d = z3.Datatype(_mangle(self.key))
-            d.declare("none")
-            d.declare("some", ("v", self.inner.sort()))
-            return d.create()
+            m = _mangle(self.key)
+            d = z3.Datatype(m)
+            d.declare("none_" + m)
+            d.declare("some_" + m, ("v_" + m, self.inner.sort()))
+            r = d.create()
+            r.none, r.some, r.v = getattr(r, "none_" + m), getattr(r, "some_" + m), getattr(r, "v_" + m)
+            r.is_none, r.is_some = getattr(r, "is_none_" + m), getattr(r, "is_some_" + m)
+            return r
         return _dt(self.key, build)
 
 
@@ -221,11 +230,14 @@ class TDict(Ty):
 
     def sort(self):
         def build():
-            d = z3.Datatype(_mangle(self.key))
-            d.declare("mk_" + _mangle(self.key),
-                      ("dom", z3.ArraySort(self.k.sort(), z3.BoolSort())),
-                      ("val", z3.ArraySort(self.k.sort(), self.v.sort())))
-            return d.create()
+            m = _mangle(self.key)
+            d = z3.Datatype(m)
+            d.declare("mk_" + m,
+                      ("dom_" + m, z3.ArraySort(self.k.sort(), z3.BoolSort())),
+                      ("val_" + m, z3.ArraySort(self.k.sort(), self.v.sort())))
+            r = d.create()
+            r.dom, r.val = getattr(r, "dom_" + m), getattr(r, "val_" + m)
+            return r
         return _dt(self.key, build)
 
 
